@@ -106,7 +106,7 @@ structure WeeknoYArgs (a : Args) : Prop where
   interval : 1 ≤ a.interval
   valid : a.dtstart.Valid
   wkst : 0 ≤ a.wkst.getD 0 ∧ a.wkst.getD 0 ≤ 6
-  bymonthday : a.bymonthday = none
+  monthday_nz : ∀ x ∈ a.bymonthday.getD [], x ≠ 0
   byeaster : a.byeaster = none
   plain : ∀ w ∈ a.byweekday.getD [], w.2 = 0
   weekno : ∃ wl, a.byweekno = some wl ∧ wl ≠ [] ∧ WnoOk wl
@@ -172,8 +172,8 @@ theorem wy_nwd (wa : WeeknoYArgs a) : truthy (bynweekdayOf a) = false := by
 abbrev weeknoRuleOf (a : Args) (bh bm bs : Option (List Int)) : Rule :=
   { freq := a.freq, interval := a.interval, wkst := a.wkst.getD 0,
     dtstart := { a.dtstart with us := 0 }, tz := a.tz, count := a.count, untilDT := a.untilDT,
-    bysetpos := a.bysetpos, bymonth := a.bymonth.map sortedSet, bymonthday := [],
-    bynmonthday := [], byyearday := a.byyearday.map sortedSet,
+    bysetpos := a.bysetpos, bymonth := a.bymonth.map sortedSet, bymonthday := bymonthdayOf a,
+    bynmonthday := bynmonthdayOf a, byyearday := a.byyearday.map sortedSet,
     byeaster := none, byweekno := some (weeknosOf a),
     byweekday := byweekdayOf a, bynweekday := bynweekdayOf a,
     byhour := bh, byminute := bm, bysecond := bs,
@@ -189,11 +189,8 @@ theorem wy_rule (wa : WeeknoYArgs a) (h : construct a = .ok r) : ∃ bh bm bs, r
   obtain ⟨wl, hwl, _, _⟩ := wa.weekno
   refine ⟨bh, bm, bs, ?_⟩
   have hbm : bymonthOf a = a.bymonth.map sortedSet := by unfold bymonthOf; simp [wy_noDay wa]
-  have hmd : monthdayArg a = none := by unfold monthdayArg; simp [wy_noDay wa, wa.bymonthday]
-  have hbmd : bymonthdayOf a = [] := by unfold bymonthdayOf; rw [hmd]
-  have hbnd : bynmonthdayOf a = [] := by unfold bynmonthdayOf; rw [hmd]
   have hws : a.byweekno.map sortedSet = some (weeknosOf a) := by unfold weeknosOf; rw [hwl]; rfl
-  simp [weeknoRuleOf, hbm, hbmd, hbnd, hws, wa.byeaster]
+  simp [weeknoRuleOf, hbm, hws, wa.byeaster]
 
 theorem wy_cuts (wa : WeeknoYArgs a) (h : construct a = .ok r) : CutsAgree a r := by
   obtain ⟨bh, bm, bs, hr⟩ := wy_rule wa h
@@ -212,6 +209,14 @@ theorem wy_bridge (wa : WeeknoYArgs a) (h : construct a = .ok r) (info : Info) (
   obtain ⟨wl, hwl, hne, _⟩ := wa.weekno
   have hfo := date_of_yday y j hy hj0 hj1
   rw [← hyo] at hfo
+  have hpos : 1 ≤ info.yearordinal + j := by
+    rw [hyo]
+    have := toOrdinal_pos y 1 1 hy ⟨by omega, by omega, by omega, by have := daysInMonth_bounds y 1; omega⟩
+    omega
+  obtain ⟨_, hvd, _⟩ := toOrdinal_fromOrdinal (info.yearordinal + j) hpos
+  rw [hfo] at hvd
+  obtain ⟨_, _, hd1, hd2⟩ := hvd
+  dsimp only at hd1 hd2
   rw [hr]
   unfold simpleOk Spec.RRule.dateOk
   rw [hfo]
@@ -219,8 +224,13 @@ theorem wy_bridge (wa : WeeknoYArgs a) (h : construct a = .ok r) (info : Info) (
   have hnd : Spec.RRule.noDayParts a = noDayParts a := rfl
   have hmonths : Spec.RRule.months a = a.bymonth.getD [] := by
     unfold Spec.RRule.months; cases a.bymonth <;> simp [hnd, wy_noDay wa]
-  have hmd : Spec.RRule.monthdays a = [] := by
-    unfold Spec.RRule.monthdays; simp [hnd, wy_noDay wa, wa.bymonthday]
+  have hmda : monthdayArg a = a.bymonthday := by unfold monthdayArg; simp [wy_noDay wa]
+  have hmd : Spec.RRule.monthdays a = a.bymonthday.getD [] := by
+    unfold Spec.RRule.monthdays; simp [hnd, wy_noDay wa]
+  have hmc := monthday_clause_core a (by rw [hmda]; exact wa.monthday_nz)
+    (monthDayOfYday (isLeap y) j).2
+    ((monthDayOfYday (isLeap y) j).2 - daysInMonth y (monthOfYday (isLeap y) j) - 1) (by omega) (by omega)
+  rw [hmda] at hmc
   have hwds : Spec.RRule.weekdays a = a.byweekday.getD [] := by
     unfold Spec.RRule.weekdays; simp [hnd, wy_noDay wa]
   have hwc := weekday_clause_ym (wy_strip wa) (weekdayOfOrd (info.yearordinal + j))
@@ -231,7 +241,7 @@ theorem wy_bridge (wa : WeeknoYArgs a) (h : construct a = .ok r) (info : Info) (
         wn.1 == weekdayOfOrd (info.yearordinal + j) &&
           (wn.2 == 0 || decide (a.freq > 1) ||
             Spec.RRule.nthOk a (info.yearordinal + j) y (monthOfYday (isLeap y) j) wn.2))) := hwc
-  rw [hmonths, hmd, hwds, wa.byeaster, hwl, month_clause, hwc']
+  rw [hmonths, hmd, hwds, wa.byeaster, hwl, month_clause, hwc', hmc]
   have hwk : weekClause (a.wkst.getD 0) (weeknosOf a) (info.yearordinal + j) =
       (match some wl with
        | some (x :: xs) => (x :: xs).contains (Spec.RRule.weekOf (Spec.RRule.wkst a) (info.yearordinal + j)).1 ||
@@ -252,17 +262,18 @@ theorem wy_bridge (wa : WeeknoYArgs a) (h : construct a = .ok r) (info : Info) (
     Bool.or_self, List.contains_nil]
   generalize ((a.bymonth.getD []).isEmpty || (a.bymonth.getD []).contains (monthOfYday (isLeap y) j)) = b1
   generalize ((a.byweekday.getD []).isEmpty || _) = b2
+  generalize ((a.bymonthday.getD []).isEmpty || _ || _) = b4
   cases hq : wl with
   | nil => exact absurd hq hne
   | cons x0 xs0 =>
     dsimp only
     generalize ((x0 :: xs0).contains _ || (x0 :: xs0).contains _) = b3
     rcases a.byyearday with _ | (_ | ⟨x, xs⟩)
-    · cases b1 <;> cases b2 <;> cases b3 <;> rfl
-    · cases b1 <;> cases b2 <;> cases b3 <;> rfl
+    · cases b1 <;> cases b2 <;> cases b3 <;> cases b4 <;> rfl
+    · cases b1 <;> cases b2 <;> cases b3 <;> cases b4 <;> rfl
     · rw [yearday_clause (some (x :: xs))]
       dsimp only
-      cases b1 <;> cases b2 <;> cases b3 <;> simp
+      cases b1 <;> cases b2 <;> cases b3 <;> cases b4 <;> simp
 
 /-- "the model state at the start of period `k`" -/
 structure WeeknoGood (a : Args) (r : Rule) (k : Nat) (st : State) : Prop where
@@ -382,8 +393,8 @@ theorem wy_init (wa : WeeknoYArgs a) (h : construct a = .ok r) (hlo : 1 ≤ a.dt
 
 /-- **`iter_eq_spec`, YEARLY with BYWEEKNO on the complement of D-C01c** (a listed 52/53 comes with −1,
     a listed −52/−53 comes with 1): FREQ=YEARLY, INTERVAL ≥ 1, a valid start, any week start, any
-    BYMONTH / BYYEARDAY / plain BYDAY / BYHOUR / BYMINUTE / BYSECOND / BYSETPOS, any COUNT / UNTIL, no
-    BYMONTHDAY / nth BYDAY / BYEASTER: exactly the specification's recurrence set (weeks of at least four
+    BYMONTH / BYMONTHDAY (non-zero) / BYYEARDAY / plain BYDAY / BYHOUR / BYMINUTE / BYSECOND / BYSETPOS, any
+    COUNT / UNTIL, no nth BYDAY / BYEASTER: exactly the specification's recurrence set (weeks of at least four
     days, numbered from the start or the end of the week-year). -/
 theorem iter_eq_spec_yearly_weekno (wa : WeeknoYArgs a) (h : construct a = .ok r) (n : Nat)
     (hy : a.dtstart.y + n * a.interval ≤ 9999) :
